@@ -21,7 +21,7 @@ PYOPT = {'quick': 1, 'thorough': 1}     # one unit of every kind is also served 
 REQUIRED = ['units_run_under_python_-O', 'legal_exact', 'prefix_rejected', 'corruption_rejected', 'corruption_accepted', 'short_read_decodes',
             'wsgi_decodes', 'cut_in_size_line', 'cut_in_data', 'cut_after_data_cr', 'cut_in_last_chunk_line',
             'data_crlf_corruption_rejected', 'chunk_larger_than_buffer', 'with_extension', 'with_trailer',
-            'stalled_peer_decodes', 'decodes_with_1000_or_more_reads', 'chunked_bodies_declared_multipart', 'extension_with_bytes_that_are_not_utf8', 'legal_bodies_exactly_at_a_configured_limit']
+            'stalled_peer_decodes', 'decodes_with_1000_or_more_reads', 'chunked_bodies_declared_multipart', 'extension_with_bytes_that_are_not_utf8', 'legal_bodies_exactly_at_a_configured_limit', 'request_reframed_as_chunked_after_a_first_read']
 ASSUMPTIONS = ['wsgi.input.read(n) may return 1..n bytes while data is available (PEP 3333)',
                'exact decoding is demanded only when every size line (digits+extension+CRLF) fits the configured buffer, '
                'which bounds the size-line scan by design; longer size lines must give exact acceptance or a client error',
@@ -310,6 +310,37 @@ def check_one(ctx, enc, buf, pdesc, mode, expect, payload, fits, what, extra='',
     return verdict
 
 
+def reframed(ctx, enc, payload, meta):
+    """A request object that first carried (and read) a Content-Length body is handed a chunked one through its own item assignment
+    (Transfer-Encoding header and input stream replaced): the new body is decoded as what it is - exactly, and a truncated one is refused."""
+    import ombott
+    from ombott.request_pkg.errors import RequestError
+    for cut in (None, max(1, meta['last_line_end'] - 2)):
+        data = enc if cut is None else enc[:cut]
+        rq = ombott.Request(make_environ('POST', '/c', body=b'abc', content_type='text/plain'), config={'max_memfile_size': 1024})
+        first = rq.body.read(), rq.chunked
+        rq['HTTP_TRANSFER_ENCODING'] = 'chunked'
+        rq['wsgi.input'] = RecStream(data, 'full')
+        ctx.count('request_reframed_as_chunked_after_a_first_read')
+        ctx.case(('reframed', enc, cut), nontrivial=True)
+        wit = {'unit': {'kind': 'note', 'enc': data.decode('latin1'), 'what': 'request reframed as chunked after a Content-Length body was read'}}
+        try:
+            got = rq.body.read()
+        except RequestError:
+            got = RequestError
+        except ombott.HTTPError as e:
+            got = RequestError if 400 <= e.status_code < 500 else e
+        except Exception as e:  # noqa
+            ctx.violation('chunked:reframed-request:server-fault', f'{type(e).__name__}: {e}', wit)
+            continue
+        if first[0] != b'abc':
+            ctx.violation('chunked:reframed-request:first-body-wrong', repr(first), wit)
+        elif cut is None and meta['max_size_line'] <= 1024 and got != payload:
+            ctx.violation('chunked:reframed-request:new-body-not-decoded', f'after the request was given a chunked body: {got if got is RequestError else got[:40]!r} instead of {payload[:40]!r}', wit)
+        elif cut is not None and got is not RequestError:
+            ctx.violation('chunked:reframed-request:truncated-body-accepted', f'cut={cut}: accepted {got[:40]!r}', wit)
+
+
 def enc_unit(ctx, unit):
     rng = ctx.rng
     for ei in range(unit['n'] + unit['big']):
@@ -340,6 +371,8 @@ def enc_unit(ctx, unit):
                 mode = 'wsgi' if rng.random() < (0.3 if ctype is None else 0.7) else 'direct'
                 check_one(ctx, enc, buf, pdesc, mode, 'exact', payload, fits, 'legal', ctype=ctype)
                 ctx.case((enc, buf, repr(pdesc), mode), nontrivial=bool(meta['chunks']))
+        if not big:
+            reframed(ctx, enc, payload, meta)
         if len(ctx.samples) < 4:
             ctx.sample({'encoding': enc[:120].decode('latin1'), 'chunks': meta['chunks'], 'payload_len': len(payload)})
         if big:
